@@ -431,6 +431,9 @@ def e_send_expect(ctx, s):
     lv = C.trace(s.b, s.t["args"][0])
     if not any(l.kind == "call" and C.callee_name(l.data) == "std::sync::mpsc::Sender::<T>::send" for l in lv):
         return None
+    import rules_sched
+    if s.b.name not in {cl.name for (_b, _bb, _t, cl) in rules_sched.spawner_bodies(ctx) if cl is not None}:
+        return None       # only the task closures handed to ThreadPool::execute
     tx = ctx.lib.adts.get(ADT["Txtpp"])
     if not tx or not any("std::sync::mpsc::Receiver<" in f["ty"] for f in tx["variants"][0]["fields"]):
         return None
@@ -530,9 +533,33 @@ def e_num_threads(ctx, s):
     """R18.2"""
     b, t = s.b, s.t
     n_id = ident(b, t["args"][1])
-    cut = cmp_holds_edges(b, s.prog, "ne", lambda lv: same(frozenset(ident_leaves(b, lv)), n_id), lambda lv: has_const(lv, "0_usize"))
+    def positive(cd, v, leaf):
+        """edges on which n >= 1 is implied by a comparison of n with a constant"""
+        if cd.kind != "bool" or leaf is None or leaf.kind != "binop":
+            return False
+        op = leaf.data["op"]
+        for first in (True, False):
+            x, y = (leaf.data["a"], leaf.data["b"]) if first else (leaf.data["b"], leaf.data["a"])
+            if not same(ident(b, x), n_id):
+                continue
+            kv = None
+            for l in C.trace(b, y):
+                if l.kind == "const":
+                    m = re.match(r"(\d+)_usize", C.op_const(l.data) or "")
+                    kv = int(m.group(1)) if m else None
+            if kv is None:
+                continue
+            o = op if first else {"Lt": "Gt", "Gt": "Lt", "Le": "Ge", "Ge": "Le"}.get(op, op)
+            # n o kv
+            if (o == "Eq" and kv == 0 and v is False) or (o == "Ne" and kv == 0 and v is True) or \
+                    (o == "Eq" and kv >= 1 and v is True) or \
+                    (o == "Lt" and kv <= 1 and v is False) or (o == "Le" and kv == 0 and v is False) or \
+                    (o == "Gt" and v is True) or (o == "Ge" and kv >= 1 and v is True):
+                return True
+        return False
+    cut = C.guard_edges(b, s.prog, positive)
     if cut and C.guarded(b, s.bb, cut):
-        return "guarded by the num_threads != 0 edge"
+        return "guarded by an edge implying num_threads >= 1"
     # clamped: max(n, c>=1)
     for l in C.trace(b, t["args"][1]):
         if l.kind == "call" and C.callee_name(l.data) in ("std::cmp::Ord::max", "std::cmp::max", "std::cmp::impls::<impl std::cmp::Ord for usize>::max"):
@@ -549,7 +576,7 @@ REVIEWED = [
     (r"<txtpp::core::execute::pp::directive::Directive as std::fmt::Display>::fmt$", r"^call:" + re.escape(VEC_INDEX), e_args0),
     (r"DepManager::notify_finish$", r"^call:std::option::Option::<T>::unwrap$", e_notify_unwrap),
     (r"execute_in_collect_deps_mode$", r"^call:std::panicking::panic", e_unreachable_collect),
-    (r"Txtpp::execute_(file|directory)::\{closure#\d+\}$", r"^call:std::result::Result::<T, E>::expect$", e_send_expect),
+    (r"::\{closure#\d+\}$", r"^call:std::result::Result::<T, E>::expect$", e_send_expect),
     (r"get_line_ending_from_buf$", r"^assert:BoundsCheck", e_line_ending_buf),
     (r".*", r"^call:std::str::<impl str>::repeat$", e_repeat),
     (r"Txtpp::run_internal$", r"^assert:Overflow\(Add\)", e_file_count),
